@@ -9,6 +9,8 @@ ASSUMPTIONS = C03.ASSUMPTIONS + ["for tall shapes get_lifetime is exercised thro
 
 
 def run(ctx):
+    if ctx.tier == "thorough":
+        ctx.max_steps_override = 500     # the complete-lifetime walk is C03's thorough job; here the accounting hooks carry the weight
     C03.run(ctx)
     if not ctx.hz:
         return
